@@ -19,6 +19,7 @@ import (
 	"math/big"
 	"os"
 	"path/filepath"
+	"regexp"
 	"sort"
 	"strconv"
 	"strings"
@@ -768,6 +769,187 @@ func main() {
 		e.strs("sharedBackendUser", []string{sp}, ok, []string{"allUsers"}, "app/store const sharedBackendUser")
 		caps := ap.chanCaps(ap.funcDecl("responseHandler"))
 		e.zs("responseHandlerChanCaps", caps, ap.funcDecl("responseHandler") != nil, []int64{1}, "app responseHandler: make(chan error, N) capacities")
+		// concurrent senders on the error channel of postResponse (send statements inside go-literals)
+		senders := int64(0)
+		if fd := ap.funcDecl("postResponse"); fd != nil && fd.Body != nil {
+			ast.Inspect(fd.Body, func(n ast.Node) bool {
+				if g, ok := n.(*ast.GoStmt); ok {
+					ast.Inspect(g.Call, func(m ast.Node) bool {
+						if _, ok := m.(*ast.SendStmt); ok {
+							senders++
+						}
+						return true
+					})
+					return false
+				}
+				return true
+			})
+		}
+		e.zs("postResponseConcurrentSenders", []int64{senders}, ap.funcDecl("postResponse") != nil, []int64{2}, "app postResponse: send statements on the error channel inside go statements")
+		// does newStoredResponse fill in StartTime (the cron job deletes responses with StartTime < now-2min)?
+		setsStart, foundLit := int64(0), false
+		if fd := st.funcDecl("newStoredResponse"); fd != nil && fd.Body != nil {
+			ast.Inspect(fd.Body, func(n ast.Node) bool {
+				switch x := n.(type) {
+				case *ast.CompositeLit:
+					if id, ok := x.Type.(*ast.Ident); ok && id.Name == "storedResponse" {
+						foundLit = true
+						for _, el := range x.Elts {
+							if kv, ok := el.(*ast.KeyValueExpr); ok {
+								if k, ok := kv.Key.(*ast.Ident); ok && k.Name == "StartTime" {
+									setsStart = 1
+								}
+							}
+						}
+					}
+				case *ast.AssignStmt:
+					for _, l := range x.Lhs {
+						if se, ok := l.(*ast.SelectorExpr); ok && se.Sel.Name == "StartTime" {
+							setsStart = 1
+						}
+					}
+				}
+				return true
+			})
+		}
+		e.zs("storedResponseSetsStartTime", []int64{setsStart}, foundLit, []int64{0}, "app/store newStoredResponse: the stored response carries a StartTime (1) or the zero time (0)")
+		// agent handlers whose first statement validates the caller and whose second rejects with 401
+		var guarded []string
+		for _, hn := range []string{"pendingHandler", "requestHandler", "responseHandler"} {
+			fd := ap.funcDecl(hn)
+			if fd == nil || fd.Body == nil || len(fd.Body.List) < 2 {
+				continue
+			}
+			as, ok := fd.Body.List[0].(*ast.AssignStmt)
+			if !ok || len(as.Lhs) != 2 || len(as.Rhs) != 1 {
+				continue
+			}
+			ce, ok := as.Rhs[0].(*ast.CallExpr)
+			if !ok {
+				continue
+			}
+			if id, ok := ce.Fun.(*ast.Ident); !ok || id.Name != "checkBackendID" {
+				continue
+			}
+			ifs, ok := fd.Body.List[1].(*ast.IfStmt)
+			if !ok {
+				continue
+			}
+			has401, hasReturn := false, false
+			ast.Inspect(ifs.Body, func(n ast.Node) bool {
+				if se, ok := n.(*ast.SelectorExpr); ok && se.Sel.Name == "StatusUnauthorized" {
+					has401 = true
+				}
+				return true
+			})
+			if len(ifs.Body.List) > 0 {
+				_, hasReturn = ifs.Body.List[len(ifs.Body.List)-1].(*ast.ReturnStmt)
+			}
+			// every other use of the store in the handler must name the validated ID
+			usesValidated := true
+			if lhs0, ok := as.Lhs[0].(*ast.Ident); ok {
+				for _, stt := range fd.Body.List[2:] {
+					ast.Inspect(stt, func(n ast.Node) bool {
+						if c2, ok := n.(*ast.CallExpr); ok {
+							for _, a := range c2.Args {
+								if se, ok := a.(*ast.CallExpr); ok {
+									// r.Header.Get(HeaderBackendID) used again after validation
+									if sel, ok := se.Fun.(*ast.SelectorExpr); ok && sel.Sel.Name == "Get" && len(se.Args) == 1 {
+										if id, ok := se.Args[0].(*ast.Ident); ok && id.Name == "HeaderBackendID" {
+											usesValidated = false
+										}
+									}
+								}
+							}
+						}
+						return true
+					})
+				}
+				_ = lhs0
+			}
+			if has401 && hasReturn && usesValidated {
+				guarded = append(guarded, hn)
+			}
+		}
+		e.strs("agentHandlersGuardedFirst", guarded, true, nil, "app: agent handlers that start with checkBackendID and answer 401 + return on error")
+		// API paths served before the administrator check, and whether api.yaml restricts each to `login: admin`
+		var unchecked []string
+		var uncheckedYaml []int64
+		if fd := ap.funcDecl("handleAPIRequest"); fd != nil && fd.Body != nil {
+			for _, stt := range fd.Body.List {
+				ifs, ok := stt.(*ast.IfStmt)
+				if !ok {
+					continue
+				}
+				if ue, ok := ifs.Cond.(*ast.UnaryExpr); ok {
+					if ce, ok := ue.X.(*ast.CallExpr); ok {
+						if id, ok := ce.Fun.(*ast.Ident); ok && id.Name == "isAdminRequest" {
+							break
+						}
+					}
+				}
+				if be, ok := ifs.Cond.(*ast.BinaryExpr); ok {
+					if lit, ok := strLit(be.Y); ok {
+						unchecked = append(unchecked, lit)
+					}
+				}
+			}
+		}
+		yamlLogin := func(file, path string) string {
+			b, err := os.ReadFile(filepath.Join(*repo, "app", file))
+			if err != nil {
+				return ""
+			}
+			type hd struct{ url, login string }
+			var hs []hd
+			for _, line := range strings.Split(string(b), "\n") {
+				t := strings.TrimSpace(line)
+				if strings.HasPrefix(t, "- url:") {
+					hs = append(hs, hd{url: strings.TrimSpace(strings.TrimPrefix(t, "- url:"))})
+				} else if strings.HasPrefix(t, "login:") && len(hs) > 0 {
+					hs[len(hs)-1].login = strings.TrimSpace(strings.TrimPrefix(t, "login:"))
+				}
+			}
+			for _, h := range hs {
+				if re, err := regexp.Compile("^" + h.url + "$"); err == nil && re.MatchString(path) {
+					return h.login
+				}
+			}
+			return ""
+		}
+		for _, u := range unchecked {
+			if yamlLogin("api.yaml", u) == "admin" {
+				uncheckedYaml = append(uncheckedYaml, 1)
+			} else {
+				uncheckedYaml = append(uncheckedYaml, 0)
+			}
+		}
+		e.strs("apiUncheckedPaths", unchecked, ap.funcDecl("handleAPIRequest") != nil, nil, "app handleAPIRequest: paths served before the isAdminRequest check")
+		e.zs("apiUncheckedPathsAdminInYaml", uncheckedYaml, true, nil, "app/api.yaml: the first handler matching each of those paths has `login: admin` (1) or not (0)")
+		lr := int64(0)
+		if yamlLogin("app.yaml", "/any/path") == "required" {
+			lr = 1
+		}
+		e.zs("defaultLoginRequired", []int64{lr}, true, nil, "app/app.yaml: the catch-all handler has `login: required`")
+		// query limit of ListPendingRequests
+		var lim []int64
+		if fd := st.methodDecl("persistentStore", "ListPendingRequests"); fd != nil && fd.Body != nil {
+			ast.Inspect(fd.Body, func(n ast.Node) bool {
+				if ce, ok := n.(*ast.CallExpr); ok {
+					if se, ok := ce.Fun.(*ast.SelectorExpr); ok && se.Sel.Name == "Limit" && len(ce.Args) == 1 {
+						if v, err := st.eval(ce.Args[0], 0); err == nil && v.IsInt() {
+							lim = append(lim, v.Num().Int64())
+						}
+					}
+				}
+				return true
+			})
+		}
+		e.zs("pendingQueryLimit", lim, len(lim) == 1, []int64{100}, "app/store ListPendingRequests: query limit")
+		v, err = c(st, "multiOpSizeLimit")
+		e.z("multiOpSizeLimit", v, err, 500, "app/store const multiOpSizeLimit")
+		v, err = c(ap, "requestsWaitTimeout")
+		e.z("requestsWaitTimeout", v, err, 30000000000, "app const requestsWaitTimeout (ns)")
 		emit("App", e)
 	}
 
